@@ -404,6 +404,8 @@ void h_chrInFirstWord(void) { const char *a; (void)chrInFirstWord(a, nondet_char
     for hname, grp, sl, plen in groups:
         # loops run over the concrete pattern (length plen + 3 for " @@") and over token strings (<= SMAXALL)
         kb.job("words." + hname[8:], hname, kind="bounded", props=["C33"], flags=["--sat-solver", "minisat2"], unwind=max(12, plen + 6), unwindset=["Token_Match.4:4"], defines=["NOCONTRACT", hname.upper()], timeout=(900 if ctx.tier == "thorough" else 400), no_std_checks=False,
+               # bracket sets (the scan over the set inside Token::Match with a symbolic token character) need up to 8 GB; everything else fits the default
+               mem_kb=(12000000 if any(w.startswith("[") for w in grp) else None),
                # Token_Match.4 is the outer word loop of Token::Match (loops are numbered by back edge): a one- or two-word pattern needs at most 4
                # iterations; bounding it keeps the pattern pointer from being explored symbolically (an insufficient bound shows as *undecided*)
                note="words %s: token lists of 0..2 tokens (+ sentinel), token strings 1..%d chars, type/flags/varId symbolic; varid > 0" % (" ".join(grp), sl))
